@@ -45,7 +45,7 @@ ARMS = ['GetField', 'SetField', 'GetIndex', 'SetIndex', 'ArrayPush', 'ArrayPop',
         'ConcatStrings', 'ConstructChannel', 'ChannelWrite', 'ChannelRead']
 GC_FUNCS = ['maybe_gc', 'start_mark_phase', 'mark', 'process_gray', 'write_barrier', 'sweep']
 
-RSS_LIMIT_KB = 6 * 1024 * 1024
+RSS_LIMIT_KB = 12 * 1024 * 1024   # per CBMC process (2 jobs); was 6 GB while several units were developed in parallel
 KANI_JOBS = 2
 
 INV_TEXT = (
@@ -364,11 +364,16 @@ def run(tier="quick"):
         finally:
             nth.join()
         control = resB[q('drop_shared_no_strings_control')]
+        not_explored = []
         for h in ka + KANI_B:
             if h not in KANI_OBS:
                 continue
             oid, props, fn, text, bounded = KANI_OBS[h]
             r = (resA if h in ka else resB)[q(h)]
+            if h in KANI_A_SLOW and r['status'] == E.UNDECIDED and re.search(r'out of memory|timed out|TIMEOUT|not reported by kani', r['block'] or ""):
+                # extra-depth harness of the thorough tier that hit the memory watchdog / time limit: not explored, not counted
+                not_explored.append(dict(harness=h, obligation=oid, reason=(r['block'] or "").strip().split("\n")[-1][:200]))
+                continue
             st, detail = r['status'], "\n".join(r['failed'][:6])
             if h in KANI_B and control['status'] != E.DISCHARGED:
                 st, detail = E.UNDECIDED, "leak-check control harness (no string constants) did not pass: " + "; ".join(control['failed'])[:300]
@@ -471,7 +476,7 @@ def run(tier="quick"):
                                         "std Vec/Box/alloc semantics"],
             checker_cmds=[metaA['cmd'], metaB['cmd']] + [v[0]['cmd'] for k, v in natives.items() if k != '_scenario'],
             notes=dict(rewrites=info['rewrites'], kani_wall_s=round(metaA['wall'] + metaB['wall'], 1),
-                       kani_killed_for_rss=metaA['killed'] + metaB['killed'],
+                       kani_killed_for_rss=metaA['killed'] + metaB['killed'], thorough_not_explored=not_explored,
                        native={k: dict(secs=round(v[0]['secs'], 1),
                                        worlds=sum(o['worlds'] for o in v[0]['ops'].values()),
                                        ran=sum(o['ran'] for o in v[0]['ops'].values())) for k, v in natives.items() if k != '_scenario'},
